@@ -105,7 +105,7 @@ def _campaign_one(pid, seed, env, verif, harness, work, replays, binary, plan):
     jobs = int(os.environ.get("VERIF_FUZZ_JOBS", "16"))
     runs = int(os.environ.get("VERIF_FUZZ_RUNS", "1000000"))
     if is_gen:
-        runs = int(os.environ.get("VERIF_FUZZ_GEN_RUNS", str(max(1, runs // 4))))
+        runs = int(os.environ.get("VERIF_FUZZ_GEN_RUNS", str(max(1, runs // 10))))
     base = os.path.join(work, "fuzz-" + pid + "-" + target)
     shutil.rmtree(base, ignore_errors=True)
     os.makedirs(os.path.join(base, "artifacts"))
